@@ -128,14 +128,6 @@ def methodMismatch (r : Req) : Bool :=
 
 /-! ### the main theorem -/
 
-theorem handle_unauthorized (t : List Route) (r : Req) (h : authorized r = false) :
-    handle Gen.chain t r = headAdjust r { status := 401, body := .docs 1, ops := [] } := by
-  unfold handle; rw [serve_gen]; simp [h]
-
-theorem handle_preflight (t : List Route) (r : Req) (ha : authorized r = true) (h : preflight r = true) :
-    handle Gen.chain t r = headAdjust r { status := 204, body := .docs 0, ops := [] } := by
-  unfold handle; rw [serve_gen]; simp [ha, h]
-
 /-- **Main theorem.** For every route table that lines up with the expectations (in particular
     `Gen.routes`, by `routes_aligned`) and every request outside the three recorded deviations, the
     model's response satisfies every clause of the property. -/
@@ -234,12 +226,6 @@ theorem faithful (r : Req) (ha : authorized r = true) (hp : preflight r = false)
   · exact absurd hnil hne
   · exact absurd hnil hne
 
-/-- what `holds` says about the body -/
-theorem holds_single {r : Req} {o : Resp} (h : holds r o = true) : singleDocument r o = true := by
-  unfold holds clauses at h
-  simp only [List.all_append, List.all_cons, Bool.and_eq_true] at h
-  exact h.1.2.1
-
 /-- **single_document.** Every response body is a single JSON document (with the HTTP-defined
     exceptions spelled out in `singleDocument`).  Needs only K08 excluded; in particular it holds for
     every combination of invalid parts and options (the F07 repair). -/
@@ -298,6 +284,105 @@ theorem at_most_one (r : Req) :
     · simp_all
   · rw [ho]; unfold headAdjust; split <;> simp
   · rw [ho]; unfold headAdjust; split <;> simp
+
+/-! ### the bundled client -/
+
+/-- **query round trip.** `FromQuery (ToQuery o) = o` up to the representation of the metadata map
+    (the empty key is never sent). -/
+theorem client_query_roundtrip (o : Opts) : fromQuery (toQuery o) (toQueryMeta o) = some (normOpts o) :=
+  query_roundtrip o
+
+/-- arguments a client method can be given: CIDs and peer IDs are typed values (their text decodes),
+    no path segment / metric name is empty, a dot segment, or the word `recover` (which
+    `/pins/{hash}/recover` shadows) -/
+def callWf : Call → Prop
+  | .peerAdd s => s.pid.isSome
+  | .peerRm s => segOK s ∧ s.pid.isSome
+  | .pin s _ | .unpin s | .allocation s | .status s _ | .recover s _ => segOK s ∧ s.cid.isSome
+  | .metrics s => segOK s
+  | .pinPath p _ | .unpinPath p => ∀ s ∈ p, segOK s
+  | _ => True
+
+/-- K07 through the client: Pin with mode=direct -/
+def clientPinsDirect : Call → Bool
+  | .pin _ o => o.mode == .direct
+  | _ => false
+
+/-- K10: a status filter that `TrackerStatus.String` writes wider than it is -/
+def clientFilterWidens : Call → Bool
+  | .statusAll m _ => widen m != m
+  | _ => false
+
+/-- **client_server_inverse.** For every client method and every well-formed argument, under every
+    credential situation and every answer of the cluster: the request the client builds is routed (over
+    the generated table, through the generated chain) to the handler that performs exactly the
+    operation the method names with exactly the arguments given, and the client returns the server's
+    answer (an error with the server's status when the server answered an error; 401 and nothing
+    performed without valid credentials; an invalid path is refused before anything is sent).
+    Excluded: K07 (Pin with mode=direct), K01d (the answer carries origins), K10 (widened filter). -/
+theorem client_server_inverse (cfg : CliCfg) (c : Call) (hwf : callWf c)
+    (h7 : clientPinsDirect c = false) (h1 : answerHasOrigins c = false) (h10 : clientFilterWidens c = false) :
+    cliHolds cfg c (clientCall Gen.chain Gen.routes cfg c).1 (clientCall Gen.chain Gen.routes cfg c).2 = true := by
+  cases c with
+  | id => exact client_id cfg
+  | version => exact client_version cfg
+  | peers => exact client_peers cfg
+  | alerts => exact client_alerts cfg
+  | graph => exact client_graph cfg
+  | metricNames => exact client_metricNames cfg
+  | peerAdd s =>
+    obtain ⟨p, hp⟩ := Option.isSome_iff_exists.mp hwf
+    exact client_peerAdd cfg s p hp
+  | peerRm s =>
+    obtain ⟨p, hp⟩ := Option.isSome_iff_exists.mp hwf.2
+    exact client_peerRm cfg s hwf.1 p hp
+  | pin s o =>
+    obtain ⟨c', hc⟩ := Option.isSome_iff_exists.mp hwf.2
+    have hm : o.mode = .recursive := by
+      cases hmo : o.mode with
+      | recursive => rfl
+      | direct => simp [clientPinsDirect, hmo] at h7
+    have ho : o.origins = [] := by simpa [answerHasOrigins] using h1
+    exact client_pin cfg s o hwf.1 c' hc hm ho
+  | unpin s =>
+    obtain ⟨c', hc⟩ := Option.isSome_iff_exists.mp hwf.2
+    exact client_unpin cfg s hwf.1 c' hc
+  | allocation s =>
+    obtain ⟨c', hc⟩ := Option.isSome_iff_exists.mp hwf.2
+    exact client_allocation cfg s hwf.1 c' hc
+  | pinPath p o =>
+    have ho : o.origins = [] := by simpa [answerHasOrigins] using h1
+    exact client_pinPath cfg p o hwf ho
+  | unpinPath p => exact client_unpinPath cfg p hwf
+  | allocations m => exact client_allocations cfg m
+  | status s l =>
+    obtain ⟨c', hc⟩ := Option.isSome_iff_exists.mp hwf.2
+    exact client_status cfg s l hwf.1 c' hc
+  | recover s l =>
+    obtain ⟨c', hc⟩ := Option.isSome_iff_exists.mp hwf.2
+    exact client_recover cfg s l hwf.1 c' hc
+  | statusAll m l => exact client_statusAll cfg m l (by simpa [clientFilterWidens] using h10)
+  | recoverAll l => exact client_recoverAll cfg l
+  | repoGC l => exact client_repoGC cfg l
+  | metrics s => exact client_metrics cfg s hwf
+
+/-- the three client-side deviations are real: a concrete call each on which the clauses fail -/
+def cfgOpen : CliCfg := { creds := false, auth := .none, rpc := .ok }
+def sC3 : Seg := ⟨"c3", some 3, some 1003⟩
+def o0 : Opts := (pinCid 0).opts
+theorem client_K07_witness :
+    cliHolds cfgOpen (.pin sC3 { o0 with mode := .direct })
+      (clientCall Gen.chain Gen.routes cfgOpen (.pin sC3 { o0 with mode := .direct })).1
+      (clientCall Gen.chain Gen.routes cfgOpen (.pin sC3 { o0 with mode := .direct })).2 = false := by decide
+theorem client_K01d_witness :
+    cliHolds cfgOpen (.pin sC3 { o0 with origins := [1] })
+      (clientCall Gen.chain Gen.routes cfgOpen (.pin sC3 { o0 with origins := [1] })).1
+      (clientCall Gen.chain Gen.routes cfgOpen (.pin sC3 { o0 with origins := [1] })).2 = false := by decide
+theorem client_K10_witness :
+    widen 136 = 142 ∧
+    cliHolds cfgOpen (.statusAll 136 false)
+      (clientCall Gen.chain Gen.routes cfgOpen (.statusAll 136 false)).1
+      (clientCall Gen.chain Gen.routes cfgOpen (.statusAll 136 false)).2 = false := by decide
 
 /-! ### the full statement, and why it is false of the unchanged tree -/
 
